@@ -591,6 +591,94 @@ def check_str(ck, gvh, oracle, tier):
     ck.cov["str_Go!=S"] = nbad
 
 
+# ----------------------------------------------------------------------------- bitwise operators on string operands
+BIT_STRS = ["3", "0", "-1", " 2 ", "12", "0x10", "0xffffffffffffffff", "0x7fffffffffffffff", "-0x1", "3.0", "1e2", "0x1p4", "-0.0", "9223372036854775807",
+            "9223372036854775808", "-9223372036854775808", "3.5", "1e100", "0x.8", "abc", "", "1x", "0x", "inf", "nan", "+-1", "1_0"]
+BIT_NUMS = ["I0", "I1", "I2", "I-1", "I3f", "I40", "I-8000000000000000", "I7fffffffffffffff", "F4008000000000000", "F3ff8000000000000"]
+
+
+def check_bitwise_strings(ck, gvh, oracle):
+    """String operands of & | ~ << >> and unary ~: Lua converts a numeric string to a number and then to an integer
+    (manual 3.4.2 / 3.4.3; PUC bitwise.lua: "0xffffffffffffffff" | 0 == -1, "3" | 0 == 3, "3.0" | 0 == 3, "3.5" | 0 errors)."""
+    def sv(t):
+        return "S" + (t.encode().hex() or "-")
+    # what each string denotes (S) and its integer value, from the oracle
+    sl = ["z%d %s" % (i, (t.encode().hex() or "-")) for i, t in enumerate(BIT_STRS)]
+    _, so, _ = vlib.run_lines(oracle, ["str"], sl, timeout=300)
+    if len(so) != len(sl):
+        ck.violation("bitwise/strings: oracle crashed", {"kind": "oracle-crash"}, no_input=True)
+        return
+    conv = {}
+    for t, l in zip(BIT_STRS, so):
+        f = parse_fields(l)[1]
+        conv[t] = (f["S"], f["I"])          # number token or N ; integer token or N
+    ops2 = ["band", "bor", "bxor", "shl", "shr"]
+    cases = []
+    for op in ops2:
+        for t in BIT_STRS:
+            for v in BIT_NUMS:
+                cases.append((op, ("s", t), ("n", v)))
+                cases.append((op, ("n", v), ("s", t)))
+            for t2 in ("3", "0x10", "3.5", "abc", " 2 "):
+                cases.append((op, ("s", t), ("s", t2)))
+    for t in BIT_STRS:
+        cases.append(("bnot", ("s", t), None))
+
+    def tok(o):
+        return sv(o[1]) if o[0] == "s" else o[1]
+
+    def as_num(o):
+        """operand as the number it denotes, or None"""
+        if o[0] == "n":
+            return o[1]
+        return None if conv[o[1]][0] == "N" else conv[o[1]][0]
+    glines = ["b%d %s %s%s" % (i, op, tok(a), (" " + tok(b)) if b is not None else "") for i, (op, a, b) in enumerate(cases)]
+    olines, omap = [], {}
+    for i, (op, a, b) in enumerate(cases):
+        na, nb = as_num(a), (as_num(b) if b is not None else "I0")
+        if na is not None and nb is not None:
+            omap[i] = len(olines)
+            olines.append("b%d %s %s%s" % (i, op, na, (" " + nb) if b is not None else ""))
+    rc, impl, err = vlib.run_lines(gvh, ["ops"], glines, timeout=600)
+    mrc, model, merr = vlib.run_lines(oracle, ["ops"], olines, timeout=600)
+    if rc != 0 or len(impl) != len(glines) or mrc != 0 or len(model) != len(olines):
+        ck.violation("bitwise/strings: harness or oracle crashed (%d/%d, %d/%d)" % (len(impl), len(glines), len(model), len(olines)),
+                     {"kind": "crash", "stderr": (err + merr)[-1500:]}, no_input=True)
+        return
+    nbad = 0
+    rep = {}
+    for i, (op, a, b) in enumerate(cases):
+        g = parse_fields(impl[i])[1]
+        D, A, L = norm_err(op, g["D"]), norm_err(op, g["A"]), norm_err(op, g["L"])
+        ck.case("bitstr " + glines[i].split(" ", 1)[1], True)
+        ck.count("bitstr:" + op)
+        if len(set([D, A, L])) > 1:
+            nbad += 1
+            if rep.setdefault("paths", 0) < 2:
+                rep["paths"] += 1
+                ck.violation("%s: Go evaluation paths disagree on a string operand (%s / %s / %s)" % (glines[i].split(" ", 1)[1], D, A, L),
+                             {"kind": "Go!=S", "engine": "num", "mode": "ops", "line": glines[i].split(" ", 1)[1], "impl": impl[i]})
+            continue
+        # the manual: not a numeral -> error (attempt to perform bitwise operation on a string); numeral -> the operator on the converted numbers
+        want = norm_err(op, parse_fields(model[omap[i]])[1]["S"]) if i in omap else "Eother"
+        if A != want:
+            numeral_string = any(o is not None and o[0] == "s" and conv[o[1]][0] != "N" for o in (a, b))
+            k = None
+            if A == "Eother" and numeral_string:
+                k = ck.known_match(lambda k: k["id"] == "C02-bitwise-string-operands")
+            if k is not None:
+                ck.known_finding(k)
+            else:
+                nbad += 1
+                if rep.setdefault(op, 0) < 2:
+                    rep[op] += 1
+                    ck.violation("%s = %s on the implementation, the manual (string converted to a number, then to an integer) gives %s" % (glines[i].split(" ", 1)[1], A, want),
+                                 {"kind": "Go!=S", "engine": "num", "mode": "ops", "line": glines[i].split(" ", 1)[1], "impl": impl[i],
+                                  "model": model[omap[i]] if i in omap else None, "theorems": ["C02_bitop_val_partial"]})
+    ck.cov["bitwise_string_cases"] = len(cases)
+    ck.cov["bitwise_string_Go!=S"] = nbad
+
+
 def run(tier, seed):
     ck = vlib.Check("C02", tier, seed, level="proof")
     # VERIF_NUM_OVERLAY / VERIF_NUM_TAG: mutation experiments only (go build -overlay, separate binary name)
@@ -608,6 +696,7 @@ def run(tier, seed):
     check_f2i(ck, gvh, oracle, tier)
     check_ops(ck, gvh, oracle, tier)
     check_str(ck, gvh, oracle, tier)
+    check_bitwise_strings(ck, gvh, oracle)
     obl.join()
     ok_obl = obl.ok
     if not ok_obl:
